@@ -37,7 +37,7 @@ pub struct EvGen {
     pub stream: u8,
     pub expect: ExpectKind,
     pub payload_len: usize,
-    pub payload_kind: u8, // 0 zeros 1 text 2 incompressible
+    pub payload_kind: u8, // 0 zeros 1 text 2 incompressible 3 barely compressible
     pub seed: u32,
     pub meta_len: usize,
     pub name_len: usize,
@@ -185,7 +185,7 @@ pub fn gen_ops(t: &mut Tape, w: &GenWeights) -> Vec<Op> {
                 let k = 2 + t.usize_below(3);
                 Op::Batch((0..k).map(|_| gen_tx(t, w)).collect())
             }
-            2 => Op::Boundary { delta: *t.pick(&[0i64, -1, 1, -2, 2, -8, 8, -37, 37, -93]), kind: t.below(3) as u8, seed: t.raw(), stream: t.below(N_STREAMS as u64) as u8, multi: t.chance(1, 4) },
+            2 => Op::Boundary { delta: *t.pick(&[0i64, -1, 1, -2, 2, -8, 8, -37, 37, -93]), kind: t.below(4) as u8, seed: t.raw(), stream: t.below(N_STREAMS as u64) as u8, multi: t.chance(1, 4) },
             3 => Op::ReadEvent { pick: t.below(65536) as u16, unknown: t.chance(1, 6) },
             4 => Op::ReadTx { pick: t.below(65536) as u16 },
             5 => Op::ScanStream { stream: t.below(N_STREAMS as u64) as u8, from: gen_pos(t), reverse: t.chance(2, 5), batch: 1 + t.below(60) as u8 },
@@ -216,7 +216,21 @@ pub fn payload_bytes(kind: u8, seed: u32, len: usize) -> Vec<u8> {
             let pat = b"{\"amount\":100,\"currency\":\"EUR\"}";
             (0..len).map(|i| pat[(i + seed as usize) % pat.len()]).collect()
         }
-        _ => expand_bytes(seed as u64, len),
+        2 => expand_bytes(seed as u64, len),
+        _ => {
+            // barely compressible: random bytes with one short run (8-31 identical bytes), so that
+            // the compressor saves about as many bytes as its own framing costs
+            let mut v = expand_bytes(seed as u64, len);
+            let k = 8 + (seed as usize >> 7) % 24;
+            if len > 2 * k + 16 {
+                let at = len / 2;
+                let b = v[at];
+                for x in &mut v[at..at + k] {
+                    *x = b;
+                }
+            }
+            v
+        }
     }
 }
 
@@ -1073,7 +1087,7 @@ impl<'a> Interp<'a> {
         let tx = self.concretize(&g);
         let est = estimated_size(&tx.events);
         self.stats.boundary_appends += 1;
-        let content_name = ["zeros", "text", "random"][kind as usize % 3];
+        let content_name = ["zeros", "text", "random", "random with one short run (barely compressible)"][kind as usize % 4];
         self.rendered.push(json!({"boundary_append": {"free": free, "estimated": est, "delta": delta, "content": content_name, "compression": self.cfg.compression, "events": tx.events.len()}}));
         let res = self.db().append_events(Self::to_transaction(&tx)).await;
         let li = self.rendered.len() - 1;
